@@ -270,7 +270,32 @@ def dynamic_segments(F, R):
     # view side: register_and_translate_offset before use is C02/C01 territory; release_offset: unregister < receiver.release (C02)
 
 
+def grow_segment(F, R):
+    """F19: DynamicMemory::grow operates on the segment the old chunk belongs to and keeps that segment's id."""
+    fs = F.find_fns(r'resizable_shared_memory::dynamic::DynamicMemory<.*> as .*allocator::Grow<.*>>::grow$')
+    if len(fs) != 1:
+        R.missing('DynamicMemory::grow (found %d)' % len(fs))
+        return
+    f = fs[0]
+    gc = f.calls(r'allocator::Grow::grow$|ShmAllocator.*::grow$|::grow$')
+    gc = [c for c in gc if c.fn is f and not (c.callee or '').endswith('DynamicMemory::grow')]
+    R.floor('inner grow calls in DynamicMemory::grow', len(gc), 1)
+    for c in gc:
+        o = lib.origins(f, c.args[0])
+        own = any(x.endswith('PointerOffset::segment_id') for x in o) and 'arg:2' in o
+        cur = any(x.endswith('::current_segment') for x in o)
+        R.ob('FLOW', 'FLOW::%s::grows-in-the-chunks-own-segment' % fnkey(f), own and not cur, 'the segment whose allocator grows the chunk is looked up with old_pointer.offset.segment_id() (%s) and is not current_segment() (%s): growing in the current segment returns the offset of an unrelated live chunk' % (own, cur), c.where, f)
+    for c in f.calls(r'PointerOffset::set_segment_id$'):
+        o = lib.origins(f, c.args[1])
+        R.ob('FLOW', 'FLOW::%s::grown-chunk-keeps-its-segment-id' % fnkey(f), any(x.endswith('PointerOffset::segment_id') for x in o) and 'arg:2' in o and not any('current_idx' in x for x in o), 'set_segment_id(<id of old_pointer\'s segment>) after an in-place grow (origins: %s)' % sorted(core.short(x) if '::' in x else x for x in o)[:6], c.where, f)
+    # relocation path: new chunk via self.allocate (bookkeeping per segment), old chunk released in its own segment
+    al = f.calls(r'DynamicMemory<.*>::allocate$|allocator::Allocate.*::allocate$|::allocate$')
+    de = f.calls(r'::deallocate$')
+    R.ob('PAIR', 'PAIR::%s::relocation-allocates-and-releases' % fnkey(f), bool(al) and bool(de) and all(f.dominates(a, d) for a in al for d in de), 'when the own segment cannot grow the chunk: allocate() a new chunk (%d site(s)), then deallocate() the old one (%d site(s))' % (len(al), len(de)), (al + de)[0].where if (al + de) else f.file, f)
+
+
 def check(F, R, tier):
+    grow_segment(F, R)
     lib.cas_loops_fresh(R, F, r'bump_allocator::BumpAllocator as .*Allocate', 1, 'a decision computed once before the loop is stale after the first failed CAS')
     bucket_allocator(F, R)
     offset_packing(F, R)
